@@ -52,9 +52,8 @@ def c15Check (M : Nat) (n : Int) (reps : List Report) (evs : List Spec.Ev) (spec
 /-- C11 for a cycle in which exactly one task ran -/
 def c11Check (cfg : Config) (pc : Nat) (mem : List (Nat × Instr)) (oldQ newQ : List Nat) : Option String :=
   let M := cfg.coreSize.toNat
-  let R := cfg.readLimit.toNat
-  let W := cfg.writeLimit.toNat
-  if R > M || W > M then none else
+  let R := min cfg.readLimit.toNat M
+  let W := min cfg.writeLimit.toNat M
   match mem.find? (fun (a, _) => circDist M a pc > W / 2) with
   | some (a, _) => some s!"cell {a} changed by the task at {pc}: distance {circDist M a pc} > {W / 2}"
   | none =>
@@ -149,8 +148,8 @@ def Ctx.observe (c : Ctx) (s : Sim) (obsStr : String) (evs : List Spec.Ev) : Ctx
         | none => c
       | _ =>
         -- cycle level: every changed cell is near some executed pc
-        let W := cfg.writeLimit.toNat
-        if W > M || execs.isEmpty then c else
+        let W := min cfg.writeLimit.toNat M
+        if execs.isEmpty then c else
         match o.mem.find? (fun (x : Nat × Instr) => execs.all (fun (e : Nat × Nat) => circDist M x.1 e.2 > W / 2)) with
         | some (a, _) => c.fail "PROP" s!"C11 cell {a} changed, farther than {W / 2} from every executed task {execs}"
         | none => c
@@ -190,8 +189,9 @@ def Ctx.step (c : Ctx) (line : String) : Ctx :=
       length := u64 l, distance := u64 d }
     let sim := Sim.new cfg
     let M := cfg.coreSize.toNat
-    let specOn := M ≤ 300 && cfg.readLimit.toNat ≤ M && cfg.writeLimit.toNat ≤ M
-    let spec0 := Spec.Api.new M cfg.readLimit.toNat cfg.writeLimit.toNat cfg.processes.toNat cfg.cycles.toNat
+    let specOn := M ≤ 300
+    -- limits above the core size are clamped to it when the simulator is created
+    let spec0 := Spec.Api.new M (min cfg.readLimit.toNat M) (min cfg.writeLimit.toNat M) cfg.processes.toNat cfg.cycles.toNat
     let st : CaseState := {
         id, tag, cfg, sim, spec := spec0,
         rec_ := { Recorder.new cfg.coreSize with recordReads := rr == "1" },
